@@ -151,6 +151,18 @@ def check(run, repo, world):
                 st = st - drop
         return st
     if not wloops:
+        bad = _set_form_refusal(world, fn)
+        if bad is not None:
+            run.rule("R-MEMW-PRE", "refusals (length, writability of all "
+                     "locations) precede the first command")
+            run.ob("R-MEMW-PRE", Q + "#writable-types", False,
+                   "the writability test `%s` over the set of location "
+                   "types does not refuse a value whose location types are "
+                   "%s (documented: refused as soon as one location is not "
+                   "of a writable type): such a value is partly written "
+                   "before the unit says no" % (bad[0], sorted(bad[1])),
+                   where(mod, bad[2]))
+            return
         raise AnalysisError(
             "write_raw: the writability check is not in a form the rule can "
             "read (a loop over cls.locations testing location.type_ against "
@@ -504,6 +516,10 @@ def check(run, repo, world):
 
     _check_write(run, repo, world, mod, sel)
     _check_value_to_raw(run, repo, world, mod)
+    # writing 'MASK' / 'TMASK' stores the patterns the metaclass built: the
+    # same construction rule as C11's (decided over the same probe classes)
+    from .C11 import _check_mask_form
+    _check_mask_form(run, repo)
 
 
 def _guard_text(n):
@@ -854,6 +870,125 @@ def _check_value_to_raw(run, repo, world, mod):
     run.ob("R-MEMW-RAW", LOC + ".StringValue.write#short-write", okw,
            "StringValue.write must force allow_short_write and delegate",
            where(mod, fnw))
+
+
+def _set_form_refusal(world, fn):
+    """The writability check written as one question about the *set* of the
+    locations' types (`types = {l.type_ for l in cls.locations}; if <test of
+    types>: raise MemoryValueNotWriteable`): the test is evaluated for every
+    non-empty set of MemoryType members (a finite domain; only set algebra,
+    membership and boolean connectives are admitted).  Returns (test text,
+    a set of types that should be refused and is not - or the reverse, If
+    node) when the test disagrees with `some type is not writable`, None
+    when it agrees or the form is not this one."""
+    import itertools
+    folder = Folder(world)
+    mt = world.cls(LOC + ".MemoryType")
+    if mt is None:
+        return None
+    members = sorted(folder.enum_members(mt).keys())
+    setvars = {}
+    for n in ast.walk(fn):
+        if isinstance(n, ast.Assign) and len(n.targets) == 1 and isinstance(
+                n.targets[0], ast.Name):
+            v = n.value
+            if isinstance(v, ast.Call) and unparse(v.func) in (
+                    "set", "frozenset") and len(v.args) == 1:
+                v = v.args[0]
+            if isinstance(v, (ast.SetComp, ast.GeneratorExp, ast.ListComp)) \
+                    and len(v.generators) == 1 and not v.generators[0].ifs \
+                    and unparse(v.generators[0].iter) == "cls.locations" \
+                    and isinstance(v.generators[0].target, ast.Name) and \
+                    unparse(v.elt) == v.generators[0].target.id + ".type_":
+                setvars[n.targets[0].id] = n
+    if not setvars:
+        return None
+
+    class Bad(Exception):
+        pass
+
+    def ev(e, env):
+        if isinstance(e, ast.Constant):
+            return e.value
+        if isinstance(e, ast.Name):
+            if e.id in env:
+                return env[e.id]
+            raise Bad()
+        if isinstance(e, ast.Attribute) and unparse(e.value) == "MemoryType" \
+                and e.attr in members:
+            return e.attr
+        if isinstance(e, (ast.Tuple, ast.List, ast.Set)):
+            return frozenset(ev(x, env) for x in e.elts)
+        if isinstance(e, ast.UnaryOp) and isinstance(e.op, ast.Not):
+            return not ev(e.operand, env)
+        if isinstance(e, ast.BoolOp):
+            vs = [ev(x, env) for x in e.values]
+            return all(vs) if isinstance(e.op, ast.And) else any(vs)
+        if isinstance(e, ast.BinOp) and isinstance(
+                e.op, (ast.Sub, ast.BitAnd, ast.BitOr)):
+            a, b = ev(e.left, env), ev(e.right, env)
+            if not (isinstance(a, frozenset) and isinstance(b, frozenset)):
+                raise Bad()
+            return a - b if isinstance(e.op, ast.Sub) else (
+                a & b if isinstance(e.op, ast.BitAnd) else a | b)
+        if isinstance(e, ast.Compare) and len(e.ops) == 1:
+            a, b = ev(e.left, env), ev(e.comparators[0], env)
+            op = e.ops[0]
+            if isinstance(op, (ast.In, ast.NotIn)):
+                if not isinstance(b, frozenset):
+                    raise Bad()
+                return (a in b) != isinstance(op, ast.NotIn)
+            if isinstance(a, frozenset) and isinstance(b, frozenset):
+                if isinstance(op, ast.LtE):
+                    return a <= b
+                if isinstance(op, ast.Lt):
+                    return a < b
+                if isinstance(op, ast.GtE):
+                    return a >= b
+                if isinstance(op, ast.Gt):
+                    return a > b
+                if isinstance(op, ast.Eq):
+                    return a == b
+                if isinstance(op, ast.NotEq):
+                    return a != b
+            raise Bad()
+        if isinstance(e, ast.Call) and not e.keywords:
+            if isinstance(e.func, ast.Name) and e.func.id in (
+                    "bool", "len", "set", "frozenset") and len(e.args) == 1:
+                a = ev(e.args[0], env)
+                if not isinstance(a, frozenset):
+                    raise Bad()
+                return {"bool": bool, "len": len, "set": frozenset,
+                        "frozenset": frozenset}[e.func.id](a)
+            if isinstance(e.func, ast.Attribute) and e.func.attr in (
+                    "isdisjoint", "issubset", "issuperset", "intersection",
+                    "difference", "union") and len(e.args) == 1:
+                a, b = ev(e.func.value, env), ev(e.args[0], env)
+                if not (isinstance(a, frozenset) and isinstance(
+                        b, frozenset)):
+                    raise Bad()
+                return getattr(a, e.func.attr)(b)
+        raise Bad()
+    for n in ast.walk(fn):
+        if not (isinstance(n, ast.If) and n.body and isinstance(
+                n.body[0], ast.Raise) and "MemoryValueNotWriteable" in
+                unparse(n.body[0], 300)):
+            continue
+        used = {x.id for x in ast.walk(n.test) if isinstance(x, ast.Name)}
+        tv = [v for v in setvars if v in used]
+        if len(tv) != 1:
+            continue
+        for k in range(1, len(members) + 1):
+            for sub in itertools.combinations(members, k):
+                S = frozenset(sub)
+                try:
+                    refused = bool(ev(n.test, {tv[0]: S}))
+                except Bad:
+                    return None
+                if refused != (not S <= frozenset(RW_TYPES)):
+                    return (unparse(n.test, 120), S, n)
+        return None
+    return None
 
 
 def _writability_by_member(world, folder, wloop):
